@@ -58,10 +58,15 @@ void run (string s) {
 }
 
 void beat () {
+  int ec = eval_cost ();            // first thing: how much evaluation cost is left at entry
   string me = oid;
   string s;
   int k = nb++;
+  object tp = this_player ();
   VL ("beat " + me);
+  // the context the driver set up for this call: living(), this_player(), evaluation cost untouched
+  VL ("ctx " + me + " " + (living (this_object ()) ? "1" : "0") + " " + (tp ? "/c11/reg"->oid_of (tp) : "-") + " "
+      + (max_eval_cost () - ec < 100 ? "full" : "low"));
   s = "/c11/reg"->script (me, "hb:" + k);
   if (!stringp (s)) s = "/c11/reg"->script (me, "hb:*");
   if (stringp (s)) run (s);
@@ -109,6 +114,26 @@ mixed do_op (string s) {
   case "err":
     error ("boom " + me + "\n");
     break;
+  case "cerr":    // the error is caught: error_handler leaves through its catch branch
+    catch (error ("boom " + me + "\n"));
+    break;
+  case "reload":  // reload,<target>,<n>: reload_object(); create() of the target runs again and does set_heart_beat(n)
+    ob = "/c11/reg"->get (w[1]);
+    if (!ob || !clonep (ob)) { VL ("r reload " + me + " " + w[1] + " !none"); break; }
+    "/c11/reg"->set_pending (w[1], parse_int (w[2]));
+    reload_object (ob);
+    VL ("r reload " + me + " " + w[1] + " " + w[2] + " " + query_heart_beat (ob));
+    break;
+  case "living":
+    enable_commands ();
+    VL ("r living " + me);
+    break;
+  case "burn": {  // use up evaluation cost
+    int i, x = 0;
+    for (i = 0; i < 400; i++) x += i;
+    VL ("r burn " + me);
+    break;
+  }
   case "flag":
     uptime ();      // the harness' time(NULL) sets heart_beat_flag: the timer fired
     VL ("r flag " + me);
